@@ -109,6 +109,12 @@ class Context:
         self.explanation = ''
         self.not_decided = []
         self.extra = {}
+        # the checks' symbolic objects are built by the analysed classes' own constructors
+        from .props import common as _c
+        _c.PROGRAM = program
+        _c._NODE_CACHE.clear()
+        from .props import C15 as _c15
+        _c15._PROGRAM[0] = program
 
     def obligation(self, rule, construct, config=None, where=None):
         return Obligation(self, rule, construct, config, where)
